@@ -353,8 +353,51 @@ func vspawnDaemon(f func()) {}
 func vrunThreads() {
 	ts := vThreads
 	vThreads = nil
-	for _, f := range ts {
-		f()
+	vSchedMu.Lock()
+	forced := !vSchedFree && len(vSched) > 0
+	vSchedMu.Unlock()
+	if !forced {
+		for _, f := range ts {
+			f()
+		}
+		return
+	}
+	// forced schedule: one real goroutine per thread, each passing its gates in schedule order
+	var wg sync.WaitGroup
+	var pmu sync.Mutex
+	var panicked interface{}
+	for i, f := range ts {
+		wg.Add(1)
+		go func(i int, f func()) {
+			defer wg.Done()
+			defer func() {
+				if r := recover(); r != nil {
+					pmu.Lock()
+					if panicked == nil {
+						panicked = r
+					}
+					pmu.Unlock()
+					// let the others finish freely
+					vSchedMu.Lock()
+					vSchedFree = true
+					vSchedCond.Broadcast()
+					vSchedMu.Unlock()
+				}
+			}()
+			vregisterThread(i)
+			vgateAs(i, "start")
+			f()
+		}(i, f)
+	}
+	done := make(chan struct{})
+	go func() { wg.Wait(); close(done) }()
+	select {
+	case <-done:
+	case <-time.After(30 * time.Second):
+		fmt.Println("VDIVERGE forced schedule did not finish")
+	}
+	if panicked != nil {
+		panic(panicked)
 	}
 }
 func vyield()           { vgate("yield") }
